@@ -575,20 +575,20 @@ func c14CorruptionCase(t *core.T) {
 		return append(make([]byte, 32-len(b)), b...)
 	}
 	cons := map[string][]byte{
-		"scalar0":   mk(append([]byte{0}, make([]byte, 32)...)),
-		"scalarN":   mk(append([]byte{0}, pad32(n)...)),
-		"scalarN+1": mk(append([]byte{0}, pad32(new(big.Int).Add(n, big.NewInt(1)))...)),
-		"scalarN-1": mk(append([]byte{0}, pad32(new(big.Int).Sub(n, big.NewInt(1)))...)),
-		"scalar1":   mk(append([]byte{0}, pad32(big.NewInt(1))...)),
-		"scalarMax": mk(append([]byte{0}, bytes.Repeat([]byte{0xff}, 32)...)),
-		"prefix04":  mk(append([]byte{4}, refk.Pub[1:]...)),
-		"prefix05":  mk(append([]byte{5}, refk.Pub[1:]...)),
-		"prefix01":  mk(append([]byte{1}, refk.Pub[1:]...)),
-		"prefix06":  mk(append([]byte{6}, refk.Pub[1:]...)),
-		"xZero":     mk(append([]byte{2}, make([]byte, 32)...)),
-		"xP":        mk(append([]byte{2}, pad32(btcec.S256().P)...)),
-		"xP+1":      mk(append([]byte{3}, pad32(new(big.Int).Add(btcec.S256().P, big.NewInt(1)))...)),
-		"xMax":      mk(append([]byte{2}, bytes.Repeat([]byte{0xff}, 32)...)),
+		"scalar0":     mk(append([]byte{0}, make([]byte, 32)...)),
+		"scalarN":     mk(append([]byte{0}, pad32(n)...)),
+		"scalarN+1":   mk(append([]byte{0}, pad32(new(big.Int).Add(n, big.NewInt(1)))...)),
+		"scalarN-1":   mk(append([]byte{0}, pad32(new(big.Int).Sub(n, big.NewInt(1)))...)),
+		"scalar1":     mk(append([]byte{0}, pad32(big.NewInt(1))...)),
+		"scalarMax":   mk(append([]byte{0}, bytes.Repeat([]byte{0xff}, 32)...)),
+		"prefix04":    mk(append([]byte{4}, refk.Pub[1:]...)),
+		"prefix05":    mk(append([]byte{5}, refk.Pub[1:]...)),
+		"prefix01":    mk(append([]byte{1}, refk.Pub[1:]...)),
+		"prefix06":    mk(append([]byte{6}, refk.Pub[1:]...)),
+		"xZero":       mk(append([]byte{2}, make([]byte, 32)...)),
+		"xP":          mk(append([]byte{2}, pad32(btcec.S256().P)...)),
+		"xP+1":        mk(append([]byte{3}, pad32(new(big.Int).Add(btcec.S256().P, big.NewInt(1)))...)),
+		"xMax":        mk(append([]byte{2}, bytes.Repeat([]byte{0xff}, 32)...)),
 		"wrongParity": mk(append([]byte{refk.Pub[0] ^ 1}, refk.Pub[1:]...)),
 	}
 	for name, p := range cons {
